@@ -544,6 +544,13 @@ def main(tier="quick", seed=0):
         # depth-3 histories that contain a set_params step (a refit after set_params must use the new value)
         hists += [hs for hs in chk.generate("MC_FitModel", "FitModel_gen_hist3s.cfg")
                   if any(st["op"] == "SetParams" for st in hs["steps"])]
+    # histories over data sets in which ONE class is observed: train, predict, train on another class set
+    flips = [hs for hs in chk.generate("MC_FitModel", "FitModel_gen_flip.cfg")
+             if hs["steps"][1]["op"] == "Predict" and hs["steps"][0]["op"] != "Predict"
+             and hs["steps"][2]["op"] != "Predict" and hs["steps"][0]["d"] != hs["steps"][2]["d"]]
+    for hs in flips:
+        hs["flip"] = True
+    hists += flips
     _HISTS.clear()
     for hs in hists:
         _HISTS.setdefault((hs["kind"], hs["wsize"], hs["onlyLab"]), []).append(hs)
@@ -565,7 +572,8 @@ def main(tier="quick", seed=0):
         if not ok:
             raise tlc.MachineryError("no history for configuration %s" % cfg["name"])
         if len(ok) > cap:
-            ok = [ok[int(j)] for j in rng.choice(len(ok), size=cap, replace=False)]
+            forced = [i for i in ok if _HISTS[key][i].get("flip") and cfg["task"] == "clf"]
+            ok = sorted(set([ok[int(j)] for j in rng.choice(len(ok), size=cap, replace=False)] + forced))
         for i in ok:
             jobs.append((ci, key, i, int(rng.randint(0, 4) + 10 * seed)))
     jobs = [jobs[int(j)] for j in rng.permutation(len(jobs))]   # spread slow estimators over the workers
